@@ -12,9 +12,14 @@ It is **false** of the code (and of its model `Model/Notarize.lean`, tied to the
 * `witness_addBlock_merge`    — the tickets attached to a second object of a known block are merged unverified by
   `Chain.addBlock` and counted;
 * `witness_cancelling`        — a notarized-block message whose tickets are `σ₁+δ, σ₂−δ` passes `VerifyNotarization`
-  (C32's weakness of the aggregate check, inherited).
-Proved (`notarized_sound_partial`): for message sequences made of verification tickets (any), and proposals / block
-objects that carry **no attached tickets**, the statement holds — every ticket of every chain block was verified
+  (C32's weakness of the aggregate check, inherited);
+* `witness_reencoded_ticket`  — ONE miner's valid ticket, sent twice with its signature in two textual encodings while the
+  block is not yet known, is stored twice (the round's ticket map is keyed by the signature *string*) and counted twice
+  when the proposal arrives (`MergeVerificationTickets` returns the received list as it is for a block without tickets).
+Proved (`notarized_sound_partial`): for message sequences made of verification tickets (any verifier, any signature, in
+the canonical encoding), and proposals / block objects that carry **no attached tickets**, the statement holds — with
+"miner" meaning a member of the pool of the magic block in force for the block's round (several magic blocks with
+different miner sets may be installed) — every ticket of every chain block was verified
 individually, verifiers are distinct, and the notarized flag and the round's notarized list imply the threshold.
 -/
 namespace ZChain.Notarize
@@ -23,31 +28,35 @@ variable {F : Type} [Field F] [DecidableEq F]
 
 /-- the messages covered by the partial theorem. -/
 inductive CleanMsg (F : Type) where
-  /-- a verification ticket message for block `id` (message point `h`), any content. -/
-  | ticket (id : Nat) (t : Ticket F)
+  /-- a verification ticket message for block `id`: any verifier, any signature (canonical encoding). -/
+  | ticket (id : Nat) (verifier : Nat) (sig : F)
   /-- a block proposal (`processVerifyBlock`) carrying no tickets. -/
   | proposal (id gen : Nat)
   /-- a block object reaching `AddRoundBlock` carrying no tickets. -/
   | know (id gen : Nat)
 
-def stepClean (hOf : Nat → F) (nd : Node F) : CleanMsg F → Node F
-  | .ticket id t => handleTicket nd id (hOf id) t
-  | .proposal id gen => processVerifyBlock nd { id := id, gen := gen, h := hOf id, tickets := [], notarized := false }
-  | .know id gen => know nd { id := id, gen := gen, h := hOf id, tickets := [], notarized := false }
+/-- `hOf id` is the message point of block `id`, `slotOf id` its round (the slot decides the magic block in force). -/
+def stepClean (hOf : Nat → F) (slotOf : Nat → Nat) (nd : Node F) : CleanMsg F → Node F
+  | .ticket id v σ => handleTicket nd id (slotOf id) (hOf id) ⟨v, σ, 0⟩
+  | .proposal id gen =>
+    processVerifyBlock nd { id := id, gen := gen, slot := slotOf id, h := hOf id, tickets := [], notarized := false }
+  | .know id gen => know nd { id := id, gen := gen, slot := slotOf id, h := hOf id, tickets := [], notarized := false }
 
-def initNode (pks : List F) (thr : Nat) : Node F :=
-  { pks := pks, threshold := thr, blocks := [], store := [], roundNotarized := [], complete := false }
+def initNode (pks : List F) (pools : List (List Nat)) (thresholds : List Nat) : Node F :=
+  { pks := pks, pools := pools, thresholds := thresholds, blocks := [], store := [], roundNotarized := [], complete := [] }
 
-/-- invariant of the reachable states. -/
-structure Good (pks : List F) (thr : Nat) (hOf : Nat → F) (nd : Node F) : Prop where
-  hpks : nd.pks = pks
-  hthr : nd.threshold = thr
+/-- invariant of the reachable states. `pkOf s v` is the key of miner `v` in the pool of slot `s`'s magic block,
+`thrOf s` that slot's threshold. -/
+structure Good (pkOf : Nat → Nat → Option F) (thrOf : Nat → Nat) (hOf : Nat → F) (slotOf : Nat → Nat) (nd : Node F) : Prop where
+  hpk : ∀ s v, nd.pk? s v = pkOf s v
+  hthr : ∀ s, nd.threshold s = thrOf s
   ids : (nd.blocks.map (·.id)).Nodup
-  bh : ∀ b ∈ nd.blocks, b.h = hOf b.id
-  bvalid : ∀ b ∈ nd.blocks, ∀ t ∈ b.tickets, ValidT pks (hOf b.id) t
+  bh : ∀ b ∈ nd.blocks, b.h = hOf b.id ∧ b.slot = slotOf b.id
+  bvalid : ∀ b ∈ nd.blocks, ∀ t ∈ b.tickets, ValidT (pkOf (slotOf b.id)) (hOf b.id) t
   bnodup : ∀ b ∈ nd.blocks, (b.tickets.map (·.verifier)).Nodup
-  bnot : ∀ b ∈ nd.blocks, b.notarized = true → thr ≤ b.tickets.length
-  svalid : ∀ e ∈ nd.store, ValidT pks (hOf e.1) e.2
+  bnot : ∀ b ∈ nd.blocks, b.notarized = true → thrOf (slotOf b.id) ≤ b.tickets.length
+  svalid : ∀ e ∈ nd.store, ValidT (pkOf (slotOf e.1)) (hOf e.1) e.2
+  senc : ∀ e ∈ nd.store, e.2.enc = 0
   ssig : (nd.store.map (fun e => e.2.sig)).Nodup
   rnot : ∀ id ∈ nd.roundNotarized, ∃ b ∈ nd.blocks, b.id = id ∧ b.notarized = true
 
@@ -111,9 +120,9 @@ theorem mem_setBlock {nd : Node F} {b x : Blk F} (hx : x ∈ (nd.setBlock b).blo
 
 omit [Field F] [DecidableEq F] in
 theorem setBlock_fields (nd : Node F) (b : Blk F) :
-    (nd.setBlock b).pks = nd.pks ∧ (nd.setBlock b).threshold = nd.threshold ∧ (nd.setBlock b).store = nd.store ∧
+    ((nd.setBlock b).pk? = nd.pk?) ∧ ((nd.setBlock b).threshold = nd.threshold) ∧ (nd.setBlock b).store = nd.store ∧
     (nd.setBlock b).roundNotarized = nd.roundNotarized := by
-  unfold Node.setBlock; split <;> simp
+  unfold Node.setBlock; split <;> refine ⟨?_, ?_, rfl, rfl⟩ <;> (funext; simp [Node.pk?, Node.threshold])
 
 omit [Field F] [DecidableEq F] in
 theorem setBlock_ids (nd : Node F) (b : Blk F) (hn : (nd.blocks.map (·.id)).Nodup) :
@@ -150,27 +159,27 @@ theorem setBlock_ids (nd : Node F) (b : Blk F) (hn : (nd.blocks.map (·.id)).Nod
     exact ⟨y, hy, by simp [hya, e]⟩
 
 /-- the per-block part of the invariant. -/
-structure BlkOK (pks : List F) (thr : Nat) (hOf : Nat → F) (b : Blk F) : Prop where
-  h : b.h = hOf b.id
-  valid : ∀ t ∈ b.tickets, ValidT pks (hOf b.id) t
+structure BlkOK (pkOf : Nat → Nat → Option F) (thrOf : Nat → Nat) (hOf : Nat → F) (slotOf : Nat → Nat) (b : Blk F) : Prop where
+  h : b.h = hOf b.id ∧ b.slot = slotOf b.id
+  valid : ∀ t ∈ b.tickets, ValidT (pkOf (slotOf b.id)) (hOf b.id) t
   nodup : (b.tickets.map (·.verifier)).Nodup
-  flag : b.notarized = true → thr ≤ b.tickets.length
+  flag : b.notarized = true → thrOf (slotOf b.id) ≤ b.tickets.length
 
 omit [DecidableEq F] in
-theorem Good.blk {pks : List F} {thr : Nat} {hOf : Nat → F} {nd : Node F} (g : Good pks thr hOf nd) {b : Blk F}
-    (hb : b ∈ nd.blocks) : BlkOK pks thr hOf b :=
+theorem Good.blk {pkOf : Nat → Nat → Option F} {thrOf : Nat → Nat} {hOf : Nat → F} {slotOf : Nat → Nat} {nd : Node F} (g : Good pkOf thrOf hOf slotOf nd) {b : Blk F}
+    (hb : b ∈ nd.blocks) : BlkOK pkOf thrOf hOf slotOf b :=
   ⟨g.bh b hb, g.bvalid b hb, g.bnodup b hb, g.bnot b hb⟩
 
 omit [DecidableEq F] in
 /-- replacing / adding a block that is itself fine keeps the invariant (a block of the round's notarized list must keep
 its flag). -/
-theorem good_setBlock {pks : List F} {thr : Nat} {hOf : Nat → F} {nd : Node F} (g : Good pks thr hOf nd)
-    (b : Blk F) (ok : BlkOK pks thr hOf b) (hr : b.id ∈ nd.roundNotarized → b.notarized = true) :
-    Good pks thr hOf (nd.setBlock b) := by
+theorem good_setBlock {pkOf : Nat → Nat → Option F} {thrOf : Nat → Nat} {hOf : Nat → F} {slotOf : Nat → Nat} {nd : Node F} (g : Good pkOf thrOf hOf slotOf nd)
+    (b : Blk F) (ok : BlkOK pkOf thrOf hOf slotOf b) (hr : b.id ∈ nd.roundNotarized → b.notarized = true) :
+    Good pkOf thrOf hOf slotOf (nd.setBlock b) := by
   obtain ⟨f1, f2, f3, f4⟩ := setBlock_fields nd b
   obtain ⟨i1, i2, i3⟩ := setBlock_ids nd b g.ids
-  refine ⟨by rw [f1]; exact g.hpks, by rw [f2]; exact g.hthr, i1, ?_, ?_, ?_, ?_, by rw [f3]; exact g.svalid,
-    by rw [f3]; exact g.ssig, ?_⟩
+  refine ⟨by rw [f1]; exact g.hpk, by rw [f2]; exact g.hthr, i1, ?_, ?_, ?_, ?_, by rw [f3]; exact g.svalid,
+    by rw [f3]; exact g.senc, by rw [f3]; exact g.ssig, ?_⟩
   · intro x hx
     rcases mem_setBlock hx with rfl | ⟨hx, _⟩
     · exact ok.h
@@ -195,27 +204,30 @@ theorem good_setBlock {pks : List F} {thr : Nat} {hOf : Nat → F} {nd : Node F}
     · exact ⟨x, i3 x hx e, hxid, hxn⟩
 
 omit [DecidableEq F] in
-theorem updateNotarization_ok {pks : List F} {thr : Nat} {hOf : Nat → F} {nd : Node F} (hthr : nd.threshold = thr)
-    (b : Blk F) (h : b.h = hOf b.id) (valid : ∀ t ∈ b.tickets, ValidT pks (hOf b.id) t)
-    (nodup : (b.tickets.map (·.verifier)).Nodup) (flag : b.notarized = true → thr ≤ b.tickets.length) :
-    BlkOK pks thr hOf (updateNotarization nd b) ∧ (updateNotarization nd b).id = b.id ∧
+theorem updateNotarization_ok {pkOf : Nat → Nat → Option F} {thrOf : Nat → Nat} {hOf : Nat → F} {slotOf : Nat → Nat}
+    {nd : Node F} (hthr : ∀ s, nd.threshold s = thrOf s)
+    (b : Blk F) (h : b.h = hOf b.id ∧ b.slot = slotOf b.id) (valid : ∀ t ∈ b.tickets, ValidT (pkOf (slotOf b.id)) (hOf b.id) t)
+    (nodup : (b.tickets.map (·.verifier)).Nodup) (flag : b.notarized = true → thrOf (slotOf b.id) ≤ b.tickets.length) :
+    BlkOK pkOf thrOf hOf slotOf (updateNotarization nd b) ∧ (updateNotarization nd b).id = b.id ∧
       (b.notarized = true → (updateNotarization nd b).notarized = true) ∧
       (updateNotarization nd b).tickets = b.tickets := by
   unfold updateNotarization
   by_cases h1 : b.notarized = true
   · rw [if_pos h1]; exact ⟨⟨h, valid, nodup, flag⟩, rfl, fun x => x, rfl⟩
   · rw [if_neg h1]
-    by_cases h2 : reached nd b.tickets = true
+    by_cases h2 : reached nd b.slot b.tickets = true
     · rw [if_pos h2]
       refine ⟨⟨h, valid, nodup, ?_⟩, rfl, fun _ => rfl, rfl⟩
       intro _
-      simpa [reached, hthr] using h2
+      have := h2
+      simp only [reached, decide_eq_true_eq, hthr, h.2] at this
+      exact this
     · rw [if_neg h2]; exact ⟨⟨h, valid, nodup, flag⟩, rfl, fun x => x, rfl⟩
 
 omit [DecidableEq F] in
 /-- the round's collected tickets for a block: valid, one per verifier. -/
-theorem storeFor_ok {pks : List F} {thr : Nat} {hOf : Nat → F} {nd : Node F} (g : Good pks thr hOf nd) (id : Nat) :
-    (∀ t ∈ nd.storeFor id, ValidT pks (hOf id) t) ∧ ((nd.storeFor id).map (·.verifier)).Nodup := by
+theorem storeFor_ok {pkOf : Nat → Nat → Option F} {thrOf : Nat → Nat} {hOf : Nat → F} {slotOf : Nat → Nat} {nd : Node F} (g : Good pkOf thrOf hOf slotOf nd) (id : Nat) :
+    (∀ t ∈ nd.storeFor id, ValidT (pkOf (slotOf id)) (hOf id) t) ∧ ((nd.storeFor id).map (·.verifier)).Nodup := by
   unfold Node.storeFor
   constructor
   · intro t ht
@@ -234,9 +246,13 @@ theorem storeFor_ok {pks : List F} {thr : Nat} {hOf : Nat → F} {nd : Node F} (
     obtain ⟨pk, hpk, hs⟩ := g.svalid x hx1
     obtain ⟨pk', hpk', hs'⟩ := g.svalid y hy1
     simp only [Function.comp] at hxy
+    have ex : x.1 = id := by simpa using hx2
+    have ey : y.1 = id := by simpa using hy2
+    rw [ex] at hpk hs
+    rw [ey] at hpk' hs'
     rw [hxy, hpk'] at hpk
     injection hpk with hpk
-    rw [hs, hs', hpk, show x.1 = id by simpa using hx2, show y.1 = id by simpa using hy2]
+    rw [hs, hs', hpk]
 
 omit [Field F] [DecidableEq F] in
 theorem block?_setBlock {nd : Node F} (hn : (nd.blocks.map (·.id)).Nodup) (b : Blk F) :
@@ -246,7 +262,7 @@ theorem block?_setBlock {nd : Node F} (hn : (nd.blocks.map (·.id)).Nodup) (b : 
 
 omit [DecidableEq F] in
 /-- a block of the round's notarized list is the (unique) chain block of that id and carries the flag. -/
-theorem Good.round_flag {pks : List F} {thr : Nat} {hOf : Nat → F} {nd : Node F} (g : Good pks thr hOf nd)
+theorem Good.round_flag {pkOf : Nat → Nat → Option F} {thrOf : Nat → Nat} {hOf : Nat → F} {slotOf : Nat → Nat} {nd : Node F} (g : Good pkOf thrOf hOf slotOf nd)
     {b : Blk F} (hb : nd.block? b.id = some b) (hr : b.id ∈ nd.roundNotarized) : b.notarized = true := by
   obtain ⟨x, hx, hxid, hxn⟩ := g.rnot b.id hr
   have := block?_of_mem g.ids hx
@@ -255,9 +271,9 @@ theorem Good.round_flag {pks : List F} {thr : Nat} {hOf : Nat → F} {nd : Node 
   rw [this]; exact hxn
 
 omit [DecidableEq F] in
-theorem good_addNotarizedToRound {pks : List F} {thr : Nat} {hOf : Nat → F} {nd : Node F} (g : Good pks thr hOf nd)
+theorem good_addNotarizedToRound {pkOf : Nat → Nat → Option F} {thrOf : Nat → Nat} {hOf : Nat → F} {slotOf : Nat → Nat} {nd : Node F} (g : Good pkOf thrOf hOf slotOf nd)
     (id : Nat) (b : Blk F) (hb : nd.block? id = some b) (hflag : b.notarized = true) :
-    Good pks thr hOf (nd.addNotarizedToRound id) := by
+    Good pkOf thrOf hOf slotOf (nd.addNotarizedToRound id) := by
   unfold Node.addNotarizedToRound
   rw [hb]
   dsimp only
@@ -265,13 +281,13 @@ theorem good_addNotarizedToRound {pks : List F} {thr : Nat} {hOf : Nat → F} {n
   by_cases hc : nd.roundNotarized.contains id = true
   · rw [if_pos hc]; exact g
   · rw [if_neg hc]
-    have ok : BlkOK pks thr hOf { b with notarized := true } := by
+    have ok : BlkOK pkOf thrOf hOf slotOf { b with notarized := true } := by
       have := g.blk hbm
       exact ⟨this.h, this.valid, this.nodup, fun _ => this.flag hflag⟩
     have g1 := good_setBlock g { b with notarized := true } ok (fun _ => rfl)
     obtain ⟨f1, f2, f3, f4⟩ := setBlock_fields nd { b with notarized := true }
     obtain ⟨_, i2, _⟩ := setBlock_ids nd { b with notarized := true } g.ids
-    refine ⟨g1.hpks, g1.hthr, g1.ids, g1.bh, g1.bvalid, g1.bnodup, g1.bnot, g1.svalid, g1.ssig, ?_⟩
+    refine ⟨g1.hpk, g1.hthr, g1.ids, g1.bh, g1.bvalid, g1.bnodup, g1.bnot, g1.svalid, g1.senc, g1.ssig, ?_⟩
     intro id' hid'
     rcases List.mem_append.mp hid' with h | h
     · exact g1.rnot id' (by rw [f4]; exact (List.mem_filter.mp h).1)
@@ -279,8 +295,8 @@ theorem good_addNotarizedToRound {pks : List F} {thr : Nat} {hOf : Nat → F} {n
       exact ⟨_, i2, hbid, rfl⟩
 
 omit [DecidableEq F] in
-theorem good_noteNotarized {pks : List F} {thr : Nat} {hOf : Nat → F} {nd : Node F} (g : Good pks thr hOf nd)
-    (b : Blk F) (hb : nd.block? b.id = some b) : Good pks thr hOf (nd.noteNotarized b) := by
+theorem good_noteNotarized {pkOf : Nat → Nat → Option F} {thrOf : Nat → Nat} {hOf : Nat → F} {slotOf : Nat → Nat} {nd : Node F} (g : Good pkOf thrOf hOf slotOf nd)
+    (b : Blk F) (hb : nd.block? b.id = some b) : Good pkOf thrOf hOf slotOf (nd.noteNotarized b) := by
   unfold Node.noteNotarized
   by_cases h : b.notarized = true
   · rw [if_pos h]; exact good_addNotarizedToRound g b.id b hb h
@@ -288,9 +304,9 @@ theorem good_noteNotarized {pks : List F} {thr : Nat} {hOf : Nat → F} {nd : No
 
 omit [DecidableEq F] in
 /-- `Chain.addBlock` with an object whose tickets are all valid and distinct (e.g. none). -/
-theorem good_addBlock {pks : List F} {thr : Nat} {hOf : Nat → F} {nd : Node F} (g : Good pks thr hOf nd)
-    (b : Blk F) (ok : BlkOK pks thr hOf b) :
-    Good pks thr hOf (nd.addBlock b).1 ∧ (nd.addBlock b).1.block? (nd.addBlock b).2.id = some (nd.addBlock b).2 := by
+theorem good_addBlock {pkOf : Nat → Nat → Option F} {thrOf : Nat → Nat} {hOf : Nat → F} {slotOf : Nat → Nat} {nd : Node F} (g : Good pkOf thrOf hOf slotOf nd)
+    (b : Blk F) (ok : BlkOK pkOf thrOf hOf slotOf b) :
+    Good pkOf thrOf hOf slotOf (nd.addBlock b).1 ∧ (nd.addBlock b).1.block? (nd.addBlock b).2.id = some (nd.addBlock b).2 := by
   unfold Node.addBlock
   cases hb : nd.block? b.id with
   | none =>
@@ -321,80 +337,93 @@ theorem good_addBlock {pks : List F} {thr : Nat} {hOf : Nat → F} {nd : Node F}
 /-! ### the handlers preserve the invariant -/
 
 omit [DecidableEq F] in
-theorem good_processVerifyBlock_clean {pks : List F} {thr : Nat} {hOf : Nat → F} {nd : Node F} (g : Good pks thr hOf nd)
-    (id gen : Nat) :
-    Good pks thr hOf (processVerifyBlock nd { id := id, gen := gen, h := hOf id, tickets := [], notarized := false }) := by
+theorem good_processVerifyBlock_clean {pkOf : Nat → Nat → Option F} {thrOf : Nat → Nat} {hOf : Nat → F} {slotOf : Nat → Nat}
+    {nd : Node F} (g : Good pkOf thrOf hOf slotOf nd) (id gen : Nat) :
+    Good pkOf thrOf hOf slotOf
+      (processVerifyBlock nd { id := id, gen := gen, slot := slotOf id, h := hOf id, tickets := [], notarized := false }) := by
   unfold processVerifyBlock
-  by_cases hc : nd.complete = true
+  by_cases hc : nd.complete.contains (slotOf id) = true
   · rw [if_pos hc]; exact g
   · rw [if_neg hc]
     dsimp only
     obtain ⟨sv, sn⟩ := storeFor_ok g id
     have hm : mergeTickets ([] : List (Ticket F)) (nd.storeFor id) = nd.storeFor id := by simp [mergeTickets]
     rw [hm]
-    obtain ⟨u1, u2, _, _⟩ := updateNotarization_ok (nd := nd) (hOf := hOf) (pks := pks) g.hthr
-      { id := id, gen := gen, h := hOf id, tickets := nd.storeFor id, notarized := false } rfl sv sn (by intro h; cases h)
+    obtain ⟨u1, u2, _, _⟩ := updateNotarization_ok (nd := nd) (hOf := hOf) (pkOf := pkOf) (slotOf := slotOf) g.hthr
+      { id := id, gen := gen, slot := slotOf id, h := hOf id, tickets := nd.storeFor id, notarized := false } ⟨rfl, rfl⟩ sv sn
+      (by intro h; cases h)
     obtain ⟨a1, a2⟩ := good_addBlock g _ u1
     split
     · exact good_noteNotarized a1 _ a2
     · exact a1
 
 omit [DecidableEq F] in
-theorem good_know_clean {pks : List F} {thr : Nat} {hOf : Nat → F} {nd : Node F} (g : Good pks thr hOf nd)
-    (id gen : Nat) :
-    Good pks thr hOf (know nd { id := id, gen := gen, h := hOf id, tickets := [], notarized := false }) := by
+theorem good_know_clean {pkOf : Nat → Nat → Option F} {thrOf : Nat → Nat} {hOf : Nat → F} {slotOf : Nat → Nat}
+    {nd : Node F} (g : Good pkOf thrOf hOf slotOf nd) (id gen : Nat) :
+    Good pkOf thrOf hOf slotOf
+      (know nd { id := id, gen := gen, slot := slotOf id, h := hOf id, tickets := [], notarized := false }) := by
   unfold know
-  exact (good_addBlock g _ ⟨rfl, by simp, by simp, by intro h; cases h⟩).1
+  exact (good_addBlock g _ ⟨⟨rfl, rfl⟩, by simp, by simp, by intro h; cases h⟩).1
 
-theorem good_handleTicket {pks : List F} {thr : Nat} {hOf : Nat → F} {nd : Node F} (g : Good pks thr hOf nd)
-    (id : Nat) (t : Ticket F) : Good pks thr hOf (handleTicket nd id (hOf id) t) := by
+theorem good_handleTicket {pkOf : Nat → Nat → Option F} {thrOf : Nat → Nat} {hOf : Nat → F} {slotOf : Nat → Nat}
+    {nd : Node F} (g : Good pkOf thrOf hOf slotOf nd) (id : Nat) (v : Nat) (σ : F) :
+    Good pkOf thrOf hOf slotOf (handleTicket nd id (slotOf id) (hOf id) ⟨v, σ, 0⟩) := by
   unfold handleTicket
-  by_cases hv : (verifyTickets nd (hOf id) [t]).getD false = true
+  by_cases hv : (verifyTickets nd (slotOf id) (hOf id) [⟨v, σ, 0⟩]).getD false = true
   · rw [if_pos hv]
-    have tv : ValidT pks (hOf id) t := by
-      have := (verifyTickets_single nd (hOf id) t).mp hv
-      rwa [g.hpks] at this
+    have tv : ValidT (pkOf (slotOf id)) (hOf id) (⟨v, σ, 0⟩ : Ticket F) := by
+      have := (verifyTickets_single nd (slotOf id) (hOf id) ⟨v, σ, 0⟩).mp hv
+      have e : nd.pk? (slotOf id) = pkOf (slotOf id) := by funext x; exact g.hpk _ x
+      rwa [e] at this
     cases hb : nd.block? id with
     | none =>
       dsimp only
       unfold Node.storeAdd
-      refine ⟨g.hpks, g.hthr, g.ids, g.bh, g.bvalid, g.bnodup, g.bnot, ?_, ?_, g.rnot⟩
+      refine ⟨g.hpk, g.hthr, g.ids, g.bh, g.bvalid, g.bnodup, g.bnot, ?_, ?_, ?_, g.rnot⟩
       · intro e he
         rcases List.mem_append.mp he with h | h
         · exact g.svalid e (List.mem_filter.mp h).1
         · rw [List.mem_singleton.mp h]; exact tv
+      · intro e he
+        rcases List.mem_append.mp he with h | h
+        · exact g.senc e (List.mem_filter.mp h).1
+        · rw [List.mem_singleton.mp h]
       · rw [List.map_append, List.nodup_append]
         refine ⟨List.Nodup.sublist (List.Sublist.map _ List.filter_sublist) g.ssig, by simp, ?_⟩
         intro a ha c hc
         simp only [List.map_cons, List.map_nil, List.mem_singleton] at hc
         rw [hc]
         obtain ⟨e, he, rfl⟩ := List.mem_map.mp ha
-        have := (List.mem_filter.mp he).2
-        simpa using this
+        obtain ⟨he1, he2⟩ := List.mem_filter.mp he
+        have h0 := g.senc e he1
+        intro hs
+        simp [hs, h0] at he2
     | some b =>
       dsimp only
       obtain ⟨hbm, hbid⟩ := block?_some hb
       have bok := g.blk hbm
       unfold addTicket
-      by_cases hd : b.tickets.any (·.verifier == t.verifier) = true
+      by_cases hd : b.tickets.any (·.verifier == v) = true
       · rw [if_pos hd]; exact g
       · rw [if_neg hd]
         dsimp only
-        have hnew : t.verifier ∉ b.tickets.map (·.verifier) := by
+        have hnew : v ∉ b.tickets.map (·.verifier) := by
           intro hin
           apply hd
           rw [List.any_eq_true]
           obtain ⟨x, hx, hxv⟩ := List.mem_map.mp hin
           exact ⟨x, hx, by simp [hxv]⟩
-        obtain ⟨u1, u2, u3, _⟩ := updateNotarization_ok (nd := nd) (hOf := hOf) (pks := pks) g.hthr
-          { b with tickets := b.tickets ++ [t] } bok.h
+        obtain ⟨u1, u2, u3, _⟩ := updateNotarization_ok (nd := nd) (hOf := hOf) (pkOf := pkOf) (slotOf := slotOf) g.hthr
+          { b with tickets := b.tickets ++ [⟨v, σ, 0⟩] } bok.h
           (by
             intro x hx
             rcases List.mem_append.mp hx with h | h
             · exact bok.valid x h
-            · rw [List.mem_singleton.mp h, hbid]; exact tv)
+            · rw [List.mem_singleton.mp h]
+              show ValidT (pkOf (slotOf b.id)) (hOf b.id) _
+              rw [hbid]; exact tv)
           (by
-            show ((b.tickets ++ [t]).map (·.verifier)).Nodup
+            show ((b.tickets ++ [(⟨v, σ, 0⟩ : Ticket F)]).map (·.verifier)).Nodup
             rw [List.map_append, List.nodup_append]
             refine ⟨bok.nodup, by simp, ?_⟩
             intro a ha c hc
@@ -402,12 +431,12 @@ theorem good_handleTicket {pks : List F} {thr : Nat} {hOf : Nat → F} {nd : Nod
             rw [hc]; intro e; exact hnew (e ▸ ha))
           (by
             intro hf
-            show thr ≤ (b.tickets ++ [t]).length
+            show thrOf (slotOf b.id) ≤ (b.tickets ++ [(⟨v, σ, 0⟩ : Ticket F)]).length
             have := bok.flag hf
             simp only [List.length_append, List.length_cons, List.length_nil]; omega)
         have hbk : nd.block? b.id = some b := by rw [hbid]; exact hb
-        have hr : (updateNotarization nd { b with tickets := b.tickets ++ [t] }).id ∈ nd.roundNotarized →
-            (updateNotarization nd { b with tickets := b.tickets ++ [t] }).notarized = true := by
+        have hr : (updateNotarization nd { b with tickets := b.tickets ++ [⟨v, σ, 0⟩] }).id ∈ nd.roundNotarized →
+            (updateNotarization nd { b with tickets := b.tickets ++ [⟨v, σ, 0⟩] }).notarized = true := by
           intro hin
           rw [u2] at hin
           have hin' : b.id ∈ nd.roundNotarized := hin
@@ -419,11 +448,18 @@ theorem good_handleTicket {pks : List F} {thr : Nat} {hOf : Nat → F} {nd : Nod
   · rw [if_neg hv]; exact g
 
 /-- every state reachable by clean messages satisfies the invariant. -/
-theorem reachable_good (pks : List F) (thr : Nat) (hOf : Nat → F) (msgs : List (CleanMsg F)) :
-    Good pks thr hOf (msgs.foldl (stepClean hOf) (initNode pks thr)) := by
-  have h0 : Good pks thr hOf (initNode pks thr) := by
-    refine ⟨rfl, rfl, by simp [initNode], ?_, ?_, ?_, ?_, ?_, by simp [initNode], ?_⟩ <;> simp [initNode]
-  have : ∀ (l : List (CleanMsg F)) (nd : Node F), Good pks thr hOf nd → Good pks thr hOf (l.foldl (stepClean hOf) nd) := by
+theorem reachable_good (pks : List F) (pools : List (List Nat)) (thresholds : List Nat) (hOf : Nat → F) (slotOf : Nat → Nat)
+    (msgs : List (CleanMsg F)) :
+    Good (initNode pks pools thresholds).pk? (initNode pks pools thresholds).threshold hOf slotOf
+      (msgs.foldl (stepClean hOf slotOf) (initNode pks pools thresholds)) := by
+  have h0 : Good (initNode pks pools thresholds).pk? (initNode pks pools thresholds).threshold hOf slotOf
+      (initNode pks pools thresholds) := by
+    refine ⟨fun _ _ => rfl, fun _ => rfl, by simp [initNode], ?_, ?_, ?_, ?_, ?_, ?_, by simp [initNode], ?_⟩ <;>
+      simp [initNode]
+  have : ∀ (l : List (CleanMsg F)) (nd : Node F),
+      Good (initNode pks pools thresholds).pk? (initNode pks pools thresholds).threshold hOf slotOf nd →
+      Good (initNode pks pools thresholds).pk? (initNode pks pools thresholds).threshold hOf slotOf
+        (l.foldl (stepClean hOf slotOf) nd) := by
     intro l
     induction l with
     | nil => intro nd g; exact g
@@ -431,46 +467,70 @@ theorem reachable_good (pks : List F) (thr : Nat) (hOf : Nat → F) (msgs : List
       intro nd g
       apply ih
       cases m with
-      | ticket id t => exact good_handleTicket g id t
+      | ticket id v σ => exact good_handleTicket g id v σ
       | proposal id gen => exact good_processVerifyBlock_clean g id gen
       | know id gen => exact good_know_clean g id gen
   exact this msgs _ h0
 
 /-- **notarized_sound_partial**: after any sequence of verification-ticket messages (valid, forged, duplicated, from
-non-miners, in any order) and of proposals / block objects that carry no attached tickets, a block the node treats as
-notarized — by its flag or by the round's notarized list — holds at least `threshold` tickets, all of them valid
-signatures of miners of the magic block on the block's hash, from pairwise distinct miners. -/
-theorem notarized_sound_partial (pks : List F) (thr : Nat) (hOf : Nat → F) (msgs : List (CleanMsg F)) :
-    let nd := msgs.foldl (stepClean hOf) (initNode pks thr)
+non-miners or from miners of ANOTHER magic block, in any order) and of proposals / block objects that carry no attached
+tickets, a block the node treats as notarized — by its flag or by the round's notarized list — holds at least the
+threshold of its round's magic block many tickets, all of them valid signatures on the block's hash by members of the
+miner pool of the magic block in force for the block's round, from pairwise distinct miners. -/
+theorem notarized_sound_partial (pks : List F) (pools : List (List Nat)) (thresholds : List Nat) (hOf : Nat → F)
+    (slotOf : Nat → Nat) (msgs : List (CleanMsg F)) :
+    let nd0 := initNode pks pools thresholds
+    let nd := msgs.foldl (stepClean hOf slotOf) nd0
     (∀ b ∈ nd.blocks, b.notarized = true →
-      thr ≤ b.tickets.length ∧ (b.tickets.map (·.verifier)).Nodup ∧ ∀ t ∈ b.tickets, ValidT pks (hOf b.id) t) ∧
+      nd0.threshold (slotOf b.id) ≤ b.tickets.length ∧ (b.tickets.map (·.verifier)).Nodup ∧
+      ∀ t ∈ b.tickets, ValidT (nd0.pk? (slotOf b.id)) (hOf b.id) t) ∧
     (∀ id ∈ nd.roundNotarized, ∃ b ∈ nd.blocks, b.id = id ∧
-      thr ≤ b.tickets.length ∧ (b.tickets.map (·.verifier)).Nodup ∧ ∀ t ∈ b.tickets, ValidT pks (hOf b.id) t) := by
-  intro nd
-  have g := reachable_good pks thr hOf msgs
+      nd0.threshold (slotOf b.id) ≤ b.tickets.length ∧ (b.tickets.map (·.verifier)).Nodup ∧
+      ∀ t ∈ b.tickets, ValidT (nd0.pk? (slotOf b.id)) (hOf b.id) t) := by
+  intro nd0 nd
+  have g := reachable_good pks pools thresholds hOf slotOf msgs
   refine ⟨fun b hb hn => ⟨g.bnot b hb hn, g.bnodup b hb, g.bvalid b hb⟩, ?_⟩
   intro id hid
   obtain ⟨b, hb, hbid, hn⟩ := g.rnot id hid
   exact ⟨b, hb, hbid, g.bnot b hb hn, g.bnodup b hb, g.bvalid b hb⟩
 
-/-- `VerifyNotarization` (notarized-block messages, previous-block tickets): what its acceptance does give —
-distinct verifiers, the threshold, all verifiers miners, and the aggregate equation (errors add up to zero, C32). -/
-theorem verifyNotarization_partial (nd : Node F) (h : F) (ts : List (Ticket F)) (hv : verifyNotarization nd h ts = true) :
-    nd.threshold ≤ ts.length ∧ (∀ t ∈ ts, (nd.pk? t.verifier).isSome) := by
+omit [DecidableEq F] in
+/-- membership in the pool is what `ValidT` asks: a ticket of a node that is no miner of the round's magic block is
+never valid, whatever its signature. -/
+theorem validT_member (nd : Node F) (slot : Nat) (h : F) (t : Ticket F) (hv : ValidT (nd.pk? slot) h t) :
+    (nd.pools.getD slot []).contains t.verifier = true := by
+  obtain ⟨pk, hpk, _⟩ := hv
+  unfold Node.pk? at hpk
+  by_contra hc
+  rw [if_neg hc] at hpk
+  cases hpk
+
+/-- `VerifyNotarization` (notarized-block messages, previous-block tickets): what its acceptance does give — the
+threshold many tickets, **pairwise distinct verifier ids** (whatever the signatures look like), every verifier a
+miner of the round's magic block — and, by C32, the aggregate equation only (errors add up to zero). -/
+theorem verifyNotarization_partial (nd : Node F) (slot : Nat) (h : F) (ts : List (Ticket F))
+    (hv : verifyNotarization nd slot h ts = true) :
+    nd.threshold slot ≤ ts.length ∧ (ts.map (·.verifier)).Nodup ∧
+      (∀ t ∈ ts, (nd.pools.getD slot []).contains t.verifier = true) := by
   unfold verifyNotarization at hv
   split at hv
   · cases hv
-  · split at hv
+  · rename_i hd
+    split at hv
     · cases hv
     · rename_i hr
-      refine ⟨by simpa [reached] using hr, ?_⟩
+      refine ⟨by simpa [reached] using hr, hasDupNat_false _ (by simpa using hd), ?_⟩
       unfold verifyTickets at hv
       split at hv
       · simp at hv
       · split at hv
         · rename_i hall
           intro t ht
-          exact List.all_eq_true.mp hall t ht
+          have := List.all_eq_true.mp hall t ht
+          unfold Node.pk? at this
+          by_contra hc
+          rw [if_neg hc] at this
+          cases this
         · simp at hv
 
 /-! ## the full statement is false: negation witnesses (kernel-evaluated over `ZMod 7`) -/
@@ -479,7 +539,7 @@ instance : Fact (Nat.Prime 7) := ⟨by decide⟩
 abbrev Z7 := ZMod 7
 
 /-- three miners with keys 2, 3, 4: threshold ceil(66 % · 3) = 2; block 0 with message point 1. -/
-def nd0 : Node Z7 := initNode [2, 3, 4] 2
+def nd0 : Node Z7 := initNode [2, 3, 4] [[0, 1, 2]] [2]
 
 /-- FULL statement (false): after any sequence of received messages a block treated as notarized has at least
 `threshold` valid tickets of distinct miners. Messages: the handlers of the model. -/
@@ -492,20 +552,20 @@ inductive Msg where
 def stepMsg (nd : Node Z7) : Msg → Node Z7
   | .proposal b => processVerifyBlock nd b
   | .know b => know nd b
-  | .ticket id h t => handleTicket nd id h t
+  | .ticket id h t => handleTicket nd id 0 h t
   | .notarizedBlock b => handleNotarizedBlock nd b
 
 def validCount (nd : Node Z7) (b : Blk Z7) : Nat :=
-  ((b.tickets.filter (fun t => match nd.pk? t.verifier with
+  ((b.tickets.filter (fun t => match nd.pk? b.slot t.verifier with
     | some pk => decide (t.sig = pk * b.h)
     | none => false)).map (·.verifier)).eraseDups.length
 
 def NotarizedSound : Prop :=
   ∀ msgs : List Msg, let nd := msgs.foldl stepMsg nd0
-    ∀ b ∈ nd.blocks, (b.notarized = true ∨ nd.roundNotarized.contains b.id = true) → nd.threshold ≤ validCount nd b
+    ∀ b ∈ nd.blocks, (b.notarized = true ∨ nd.roundNotarized.contains b.id = true) → nd.threshold b.slot ≤ validCount nd b
 
 /-- a proposal of miner 1 carrying two tickets of the non-miners 1000 and 1001 with an arbitrary "signature". -/
-def forgedProposal : Blk Z7 := { id := 0, gen := 1, h := 1, tickets := [⟨1000, 5⟩, ⟨1001, 5⟩], notarized := false }
+def forgedProposal : Blk Z7 := { id := 0, gen := 1, h := 1, tickets := [⟨1000, 5, 0⟩, ⟨1001, 5, 0⟩], notarized := false }
 
 theorem witness_proposal_forged :
     let nd := processVerifyBlock nd0 forgedProposal
@@ -521,11 +581,20 @@ theorem witness_addBlock_merge :
 
 /-- the valid tickets of miners 0 and 1 on the block are 2·1 = 2 and 3·1 = 3; perturbed by ±1 they are 3 and 2, both
 invalid, and `VerifyNotarization` accepts the pair. -/
-def cancellingBlock : Blk Z7 := { id := 0, gen := 1, h := 1, tickets := [⟨0, 3⟩, ⟨1, 2⟩], notarized := false }
+def cancellingBlock : Blk Z7 := { id := 0, gen := 1, h := 1, tickets := [⟨0, 3, 0⟩, ⟨1, 2, 0⟩], notarized := false }
 
 theorem witness_cancelling :
     let nd := handleNotarizedBlock nd0 cancellingBlock
     (nd.blocks.map (fun b => (b.id, b.notarized, validCount nd b))) = [(0, true, 0)] ∧ nd.roundNotarized = [0] := by
+  decide
+
+/-- miner 2's valid ticket (4·1 = 4) arrives twice, in two encodings of the same signature, before the block is known;
+the clean proposal then counts it twice: notarized with ONE valid miner (threshold 2). -/
+theorem witness_reencoded_ticket :
+    let nd := processVerifyBlock (handleTicket (handleTicket nd0 0 0 1 ⟨2, 4, 0⟩) 0 0 1 ⟨2, 4, 1⟩)
+      { forgedProposal with tickets := [] }
+    (nd.blocks.map (fun b => (b.id, b.notarized, b.tickets.length, validCount nd b))) = [(0, true, 2, 1)] ∧
+      nd.roundNotarized = [0] := by
   decide
 
 theorem notarized_sound_false : ¬ NotarizedSound := by
@@ -534,10 +603,30 @@ theorem notarized_sound_false : ¬ NotarizedSound := by
   revert this
   decide
 
+/-- two magic blocks: slot 0 has miners 0,1,2,3 and slot 1 has miners 0,1,4,5 (threshold 3 each). Tickets validly signed
+by nodes 4 and 5 are refused for a block of slot 0 — the membership test is relative to the round's magic block. -/
+def nd2 : Node Z7 := initNode [2, 3, 4, 5, 6, 1] [[0, 1, 2, 3], [0, 1, 4, 5]] [3, 3]
+
+example :
+    let b : Blk Z7 := { id := 0, gen := 1, slot := 0, h := 1, tickets := [⟨0, 2, 0⟩, ⟨4, 6, 0⟩, ⟨5, 1, 0⟩], notarized := false }
+    (handleNotarizedBlock nd2 b).roundNotarized = [] ∧
+    (handleNotarizedBlock nd2 { b with slot := 1 }).roundNotarized = [0] ∧
+    (handleTicket nd2 0 0 1 ⟨5, 1, 0⟩).store = [] ∧ (handleTicket nd2 0 1 1 ⟨5, 1, 0⟩).store.length = 1 := by
+  decide
+
+/-- `VerifyNotarization` refuses a verifier id that appears twice, whatever the two signatures are: the same ticket in
+another encoding, or a signature split into `s+d`, `s−d` (4 miners, threshold 3). -/
+example :
+    let nd : Node Z7 := initNode [2, 3, 4, 5] [[0, 1, 2, 3]] [3]
+    verifyNotarization nd 0 1 [⟨0, 2, 0⟩, ⟨1, 3, 0⟩, ⟨1, 3, 1⟩] = false ∧
+    verifyNotarization nd 0 1 [⟨0, 2, 0⟩, ⟨1, 4, 0⟩, ⟨1, 2, 0⟩] = false ∧
+    verifyNotarization nd 0 1 [⟨0, 2, 0⟩, ⟨1, 3, 0⟩, ⟨2, 4, 0⟩] = true := by
+  decide
+
 /-- non-vacuity of the partial theorem: an honest run over `ZMod 7` reaches notarization with two valid tickets. -/
 example :
-    let nd := [CleanMsg.proposal 0 1, CleanMsg.ticket 0 ⟨0, 2⟩, CleanMsg.ticket 0 ⟨2, 5⟩, CleanMsg.ticket 0 ⟨1, 3⟩,
-      CleanMsg.ticket 0 ⟨0, 2⟩].foldl (stepClean (fun _ => (1 : Z7))) (initNode [2, 3, 4] 2)
+    let nd := [CleanMsg.proposal 0 1, CleanMsg.ticket 0 0 2, CleanMsg.ticket 0 2 5, CleanMsg.ticket 0 1 3,
+      CleanMsg.ticket 0 0 2].foldl (stepClean (fun _ => (1 : Z7)) (fun _ => 0)) (initNode [2, 3, 4] [[0, 1, 2]] [2])
     (nd.blocks.map (fun b => (b.id, b.notarized, b.tickets.length))) = [(0, true, 2)] ∧ nd.roundNotarized = [0] := by
   decide
 end Witness
